@@ -47,7 +47,7 @@ fn ops_case(inp: &[u64]) -> Result<(), String> {
     let mut bv = BitVec::new(0);
     let mut m: Vec<bool> = Vec::new();
     for step in 0..nops {
-        let op = rng.below(12);
+        let op = rng.below(15);
         match op {
             0 | 1 | 2 => { let b = rng.below(2) == 1; bv.push(b); m.push(b); }
             3 => { let a = bv.pop(); let b = m.pop(); if a != b { return Err(format!("step {}: pop {:?} != {:?}", step, a, b)); } }
@@ -59,6 +59,22 @@ fn ops_case(inp: &[u64]) -> Result<(), String> {
                    let pc = bv.par_count_ones(); if pc != e { return Err(format!("step {}: par_count_ones {} != {}", step, pc, e)); } }
             9 => { let got: Vec<usize> = bv.iter_ones().collect(); let e: Vec<usize> = (0..m.len()).filter(|&i| m[i]).collect(); if got != e { return Err(format!("step {}: iter_ones mismatch", step)); } }
             10 => { let got: Vec<usize> = bv.iter_zeros().collect(); let e: Vec<usize> = (0..m.len()).filter(|&i| !m[i]).collect(); if got != e { return Err(format!("step {}: iter_zeros mismatch", step)); } }
+            12 => { let k = rng.below(3) * rng.below(140); let add: Vec<bool> = (0..k).map(|_| rng.below(3) == 0).collect(); bv.extend(add.iter().copied()); m.extend(add); }
+            13 => {
+                // through the atomic form and back (single thread)
+                use std::sync::atomic::Ordering::Relaxed;
+                let mut a: AtomicBitVec = std::mem::replace(&mut bv, BitVec::new(0)).into();
+                match rng.below(4) {
+                    0 => { let b = rng.below(2) == 1; a.fill(b, Relaxed); for x in m.iter_mut() { *x = b; } }
+                    1 => { a.flip(Relaxed); for x in m.iter_mut() { *x = !*x; } }
+                    2 => { a.reset(Relaxed); for x in m.iter_mut() { *x = false; } }
+                    _ => { if !m.is_empty() { let i = rng.below(m.len() as u64) as usize; let b = rng.below(2) == 1; let o = a.swap(i, b, Relaxed); if o != m[i] { return Err(format!("step {}: atomic swap returned {} expected {}", step, o, m[i])); } m[i] = b; } }
+                }
+                let e = m.iter().filter(|x| **x).count();
+                if a.count_ones() != e { return Err(format!("step {}: atomic count_ones {} != {}", step, a.count_ones(), e)); }
+                for i in 0..m.len() { if a.get(i, Relaxed) != m[i] { return Err(format!("step {}: atomic get({}) wrong", step, i)); } }
+                bv = a.into();
+            }
             _ => {
                 let other: BitVec = m.iter().copied().collect();
                 if !(bv == other) { return Err(format!("step {}: eq with rebuilt copy is false", step)); }
@@ -91,6 +107,21 @@ fn stale_case(inp: &[u64]) -> Result<(), String> {
     let (nw, _) = w.into_raw_parts();
     for p in len..words.len() * 64 {
         if (nw[p / 64] >> (p % 64)) & 1 != (words[p / 64] >> (p % 64)) & 1 { return Err(format!("write changed storage bit {} beyond len {}", p, len)); }
+    }
+    // the atomic form over the same garbage storage
+    {
+        use std::sync::atomic::{AtomicUsize, Ordering::Relaxed};
+        let mk_a = || unsafe { AtomicBitVec::from_raw_parts(words.iter().map(|&x| AtomicUsize::new(x)).collect::<Vec<_>>(), len) };
+        let a = mk_a();
+        if a.count_ones() != m.iter().filter(|x| **x).count() { return Err("atomic count_ones trusts garbage".into()); }
+        for i in 0..len { if a.get(i, Relaxed) != m[i] { return Err(format!("atomic get({}) wrong", i)); } }
+        let mut a = mk_a();
+        match inp[1] % 3 { 0 => a.fill(true, Relaxed), 1 => a.fill(false, Relaxed), _ => a.flip(Relaxed) }
+        for i in 0..len { let want = match inp[1] % 3 { 0 => true, 1 => false, _ => !m[i] }; if a.get(i, Relaxed) != want { return Err(format!("atomic fill/flip: bit {} wrong", i)); } }
+        let (nw, _) = a.into_raw_parts();
+        for p in len..words.len() * 64 {
+            if (nw[p / 64].load(Relaxed) >> (p % 64)) & 1 != (words[p / 64] >> (p % 64)) & 1 { return Err(format!("atomic write changed storage bit {} beyond len {}", p, len)); }
+        }
     }
     Ok(())
 }
